@@ -88,8 +88,13 @@ class Prop(object):
         return 0, 0, []
 
 
+def _quiet_unraisable(*a):
+    pass
+
+
 def _worker(args):
     prop, case = args
+    sys.unraisablehook = _quiet_unraisable   # SQLAlchemy state GC noise after forced rollbacks
     try:
         return ('ok', prop.run_case(case))
     except Exception as e:  # harness trouble inside the worker
@@ -178,7 +183,7 @@ class Runner(object):
         if self.replay:
             with open(self.replay) as fh:
                 rp = json.load(fh)
-            cases = [rp['case']]
+            cases = [rp['case'] if 'case' in rp else rp]
             ncorpus = 0
         else:
             cases = cases + list(prop.gen(rng, self.tier))
